@@ -592,6 +592,201 @@ func catalogue() []entry {
 			}
 			return c.tr.Extend(setup, o)
 		}},
+		{"script-cltv-gate", func(c *ctx) *ce.Node {
+			// BIP65: "1 CHECKLOCKTIMEVERIFY" is a NOP before the height gate; afterwards the spender needs
+			// lockTime >= 1 of the same kind and a non-final sequence
+			setup, op, ok := setupOutput(c, []byte{0x51, 0xb1})
+			if !ok {
+				return nil
+			}
+			h := setup.Height + 1
+			active := h >= c.tr.Params.BIP0065Height
+			variant := rapid.SampledFrom([]string{"satisfied", "locktime-too-low", "final-sequence"}).Draw(c.t, "cltvVariant")
+			if c.invalid {
+				if !active {
+					return nil
+				}
+				if variant == "satisfied" {
+					variant = "locktime-too-low"
+				}
+			} else if active {
+				variant = "satisfied"
+			}
+			lt, seq := uint32(1), uint32(0xfffffffe)
+			switch variant {
+			case "locktime-too-low":
+				lt = 0
+			case "final-sequence":
+				seq = 0xffffffff
+			}
+			tx := ce.SpendTx(1, []wire.OutPoint{op}, []*wire.TxOut{{Value: setup.Utxo[op].Value, PkScript: ce.OpTrue}}, lt, seq)
+			o := ce.BlockOpt{Txs: []*wire.MsgTx{tx}}
+			if c.invalid {
+				o = c.invalidOpt(o, ce.InvalidConnect, "script-cltv-"+variant)
+			}
+			return c.tr.Extend(setup, o)
+		}},
+		{"script-der-gate", func(c *ctx) *ce.Node {
+			// BIP66: a correct signature whose R carries an excess 0x00 pad byte verifies before the
+			// height gate (lax parsing) and is refused afterwards
+			pkh := address.Hash160(testKey.PubKey().SerializeCompressed())
+			pkScript := append(append([]byte{0x76, 0xa9, 0x14}, pkh...), 0x88, 0xac)
+			setup, op, ok := setupOutput(c, pkScript)
+			if !ok {
+				return nil
+			}
+			h := setup.Height + 1
+			active := h >= c.tr.Params.BIP0066Height
+			if c.invalid && !active {
+				return nil
+			}
+			tx := wire.NewMsgTx(1)
+			tx.AddTxIn(&wire.TxIn{PreviousOutPoint: op, Sequence: 0xffffffff})
+			tx.AddTxOut(&wire.TxOut{Value: setup.Utxo[op].Value, PkScript: ce.OpTrue})
+			sig, err := txscript.RawTxInSignature(tx, 0, pkScript, txscript.SigHashAll, testKey)
+			if err != nil {
+				panic("VERIF-INFRA: " + err.Error())
+			}
+			if c.invalid || !active {
+				// 30 L 02 rl R.. 02 sl S.. ht  ->  30 L+1 02 rl+1 00 R.. 02 sl S.. ht
+				padded := []byte{0x30, sig[1] + 1, 0x02, sig[3] + 1, 0x00}
+				padded = append(padded, sig[4:]...)
+				sig = padded
+			}
+			pub := testKey.PubKey().SerializeCompressed()
+			ss := append([]byte{byte(len(sig))}, sig...)
+			ss = append(ss, byte(len(pub)))
+			ss = append(ss, pub...)
+			tx.TxIn[0].SignatureScript = ss
+			o := ce.BlockOpt{Txs: []*wire.MsgTx{tx}}
+			if c.invalid {
+				o = c.invalidOpt(o, ce.InvalidConnect, "script-non-der-signature")
+			}
+			return c.tr.Extend(setup, o)
+		}},
+		{"script-p2sh", func(c *ctx) *ce.Node {
+			// BIP16: the redeem script is executed, not only hashed
+			redeem := []byte{0x51}
+			if c.invalid {
+				redeem = []byte{0x00}
+			}
+			setup, op, ok := setupOutput(c, p2shScript(redeem))
+			if !ok {
+				return nil
+			}
+			tx := ce.SpendTx(1, []wire.OutPoint{op}, []*wire.TxOut{{Value: setup.Utxo[op].Value, PkScript: ce.OpTrue}}, 0, 0xffffffff)
+			tx.TxIn[0].SignatureScript = append([]byte{byte(len(redeem))}, redeem...)
+			o := ce.BlockOpt{Txs: []*wire.MsgTx{tx}}
+			if c.invalid {
+				o = c.invalidOpt(o, ce.InvalidConnect, "script-p2sh-redeem-false")
+			}
+			return c.tr.Extend(setup, o)
+		}},
+		{"script-nulldummy", func(c *ctx) *ce.Node {
+			// BIP147 (with segwit): the CHECKMULTISIG dummy element must be empty
+			pub := testKey.PubKey().SerializeCompressed()
+			pkScript := append(append([]byte{0x51, byte(len(pub))}, pub...), 0x51, 0xae)
+			setup, op, ok := setupOutput(c, pkScript)
+			if !ok {
+				return nil
+			}
+			tx := wire.NewMsgTx(1)
+			tx.AddTxIn(&wire.TxIn{PreviousOutPoint: op, Sequence: 0xffffffff})
+			tx.AddTxOut(&wire.TxOut{Value: setup.Utxo[op].Value, PkScript: ce.OpTrue})
+			sig, err := txscript.RawTxInSignature(tx, 0, pkScript, txscript.SigHashAll, testKey)
+			if err != nil {
+				panic("VERIF-INFRA: " + err.Error())
+			}
+			dummy := byte(0x00)
+			if c.invalid {
+				dummy = 0x51
+			}
+			tx.TxIn[0].SignatureScript = append([]byte{dummy, byte(len(sig))}, sig...)
+			o := ce.BlockOpt{Txs: []*wire.MsgTx{tx}}
+			if c.invalid {
+				o = c.invalidOpt(o, ce.InvalidConnect, "script-nulldummy")
+			}
+			return c.tr.Extend(setup, o)
+		}},
+		{"script-p2wpkh", func(c *ctx) *ce.Node {
+			pub := testKey.PubKey().SerializeCompressed()
+			pkScript := append([]byte{0x00, 0x14}, address.Hash160(pub)...)
+			setup, op, ok := setupOutput(c, pkScript)
+			if !ok {
+				return nil
+			}
+			amt := setup.Utxo[op].Value
+			tx := wire.NewMsgTx(2)
+			tx.AddTxIn(&wire.TxIn{PreviousOutPoint: op, Sequence: 0xffffffff})
+			tx.AddTxOut(&wire.TxOut{Value: amt, PkScript: ce.OpTrue})
+			hashes := txscript.NewTxSigHashes(tx, txscript.NewCannedPrevOutputFetcher(pkScript, amt))
+			wit, err := txscript.WitnessSignature(tx, hashes, 0, amt, pkScript, txscript.SigHashAll, testKey, true)
+			if err != nil {
+				panic("VERIF-INFRA: " + err.Error())
+			}
+			variant := "ok"
+			if c.invalid {
+				variant = rapid.SampledFrom([]string{"bad-signature", "wrong-amount-signed", "empty-witness", "witness-plus-sigscript"}).Draw(c.t, "wpkhVariant")
+				switch variant {
+				case "bad-signature":
+					wit[0] = append([]byte{}, wit[0]...)
+					wit[0][40] ^= 0x01
+				case "wrong-amount-signed":
+					// BIP143 commits to the amount of the spent output
+					wit, _ = txscript.WitnessSignature(tx, hashes, 0, amt+1, pkScript, txscript.SigHashAll, testKey, true)
+				case "empty-witness":
+					wit = nil
+				case "witness-plus-sigscript":
+					tx.TxIn[0].SignatureScript = []byte{0x51}
+				}
+			}
+			tx.TxIn[0].Witness = wit
+			o := ce.BlockOpt{Txs: []*wire.MsgTx{tx}}
+			if c.invalid {
+				o = c.invalidOpt(o, ce.InvalidConnect, "script-p2wpkh-"+variant)
+			}
+			return c.tr.Extend(setup, o)
+		}},
+		{"script-taproot-keypath", func(c *ctx) *ce.Node {
+			outKey := txscript.ComputeTaprootKeyNoScript(testKey.PubKey())
+			pkScript, err := txscript.PayToTaprootScript(outKey)
+			if err != nil {
+				panic("VERIF-INFRA: " + err.Error())
+			}
+			setup, op, ok := setupOutput(c, pkScript)
+			if !ok {
+				return nil
+			}
+			amt := setup.Utxo[op].Value
+			tx := wire.NewMsgTx(2)
+			tx.AddTxIn(&wire.TxIn{PreviousOutPoint: op, Sequence: 0xffffffff})
+			tx.AddTxOut(&wire.TxOut{Value: amt, PkScript: ce.OpTrue})
+			hashes := txscript.NewTxSigHashes(tx, txscript.NewCannedPrevOutputFetcher(pkScript, amt))
+			wit, err := txscript.TaprootWitnessSignature(tx, hashes, 0, amt, pkScript, txscript.SigHashDefault, testKey)
+			if err != nil {
+				panic("VERIF-INFRA: " + err.Error())
+			}
+			variant := "ok"
+			if c.invalid {
+				variant = rapid.SampledFrom([]string{"bad-signature", "trailing-zero-hashtype", "empty-witness"}).Draw(c.t, "trVariant")
+				switch variant {
+				case "bad-signature":
+					wit[0] = append([]byte{}, wit[0]...)
+					wit[0][40] ^= 0x01
+				case "trailing-zero-hashtype":
+					// BIP341: a 65-byte signature must not use hash type 0x00
+					wit[0] = append(append([]byte{}, wit[0]...), 0x00)
+				case "empty-witness":
+					wit = nil
+				}
+			}
+			tx.TxIn[0].Witness = wit
+			o := ce.BlockOpt{Txs: []*wire.MsgTx{tx}}
+			if c.invalid {
+				o = c.invalidOpt(o, ce.InvalidConnect, "script-taproot-"+variant)
+			}
+			return c.tr.Extend(setup, o)
+		}},
 	}
 }
 
